@@ -117,6 +117,9 @@ func buildCorpus(maxSize int) []*corpusEntry {
 			return
 		}
 		sh := shapeOf(dec)
+		if c.Family == "explicit-obj-count" {
+			sh += " obj-record-with-count-varint"
+		}
 		if seen[sh] {
 			return
 		}
@@ -144,6 +147,19 @@ func buildCorpus(maxSize int) []*corpusEntry {
 		tablegen.F2(cfg, []int{1, 2, 3, 4, 5, 6, 8, 10, 12, 16}, add)
 		tablegen.F4(cfg, add)
 	}
+	// an object referenced from >=8 ref blocks, so that its obj record carries an explicit count varint
+	{
+		cfg := tablegen.Cfg{BlockSize: 128, Unaligned: true}
+		var refs []refdb.Ref
+		shared := tablegen.Oid("many", 20)
+		for i := 0; i < 10; i++ {
+			refs = append(refs, refdb.Ref{Name: fmt.Sprintf("refs/heads/object-holder-%02d-%s", i, strings.Repeat("x", 32)), Kind: 1, UpdateIndex: 1, Value: shared})
+		}
+		save := maxSize
+		maxSize = 3000
+		add(&tablegen.Case{Family: "explicit-obj-count", Cfg: cfg, Min: 1, Max: 1, Refs: refs, Note: "one object in 10 ref blocks"})
+		maxSize = save
+	}
 	sort.SliceStable(out, func(i, j int) bool { return len(out[i].Data) < len(out[j].Data) })
 	return out
 }
@@ -152,7 +168,8 @@ func buildCorpus(maxSize int) []*corpusEntry {
 
 type mutant struct {
 	Corpus int
-	Kind   string // sub trunc ins del sub2 logsub
+	Kind   string // sub trunc ins del sub2 logsub ovw
+	Bytes  []byte `json:",omitempty"` // ovw: bytes written over the file starting at Off
 	Off    int
 	Val    byte
 	Off2   int
@@ -166,6 +183,8 @@ func (m mutant) String() string {
 		return fmt.Sprintf("corpus#%d sub2 @%d=%#02x @%d=%#02x repair=%v", m.Corpus, m.Off, m.Val, m.Off2, m.Val2, m.Repair)
 	case "trunc":
 		return fmt.Sprintf("corpus#%d truncate to %d", m.Corpus, m.Off)
+	case "ovw":
+		return fmt.Sprintf("corpus#%d overwrite @%d with % x repair=%v", m.Corpus, m.Off, m.Bytes, m.Repair)
 	}
 	return fmt.Sprintf("corpus#%d %s @%d=%#02x repair=%v", m.Corpus, m.Kind, m.Off, m.Val, m.Repair)
 }
@@ -210,6 +229,13 @@ func apply(e *corpusEntry, m mutant) []byte {
 		return d
 	case "trunc":
 		return append([]byte{}, src[:m.Off]...)
+	case "ovw":
+		d := append([]byte{}, src...)
+		copy(d[m.Off:], m.Bytes)
+		if m.Repair {
+			repair(d, src)
+		}
+		return d
 	case "ins":
 		d := append([]byte{}, src[:m.Off]...)
 		d = append(d, m.Val)
@@ -244,6 +270,20 @@ func apply(e *corpusEntry, m mutant) []byte {
 		return append(d, src[len(src)-fs:]...)
 	}
 	return nil
+}
+
+// putVarint is the format's varint encoding (written here independently of the code under test).
+func putVarint(v uint64) []byte {
+	out := []byte{byte(v & 0x7f)}
+	for {
+		v >>= 7
+		if v == 0 {
+			break
+		}
+		v--
+		out = append([]byte{0x80 | byte(v&0x7f)}, out...)
+	}
+	return out
 }
 
 func values(b byte, all bool) []byte {
@@ -326,6 +366,36 @@ func enumerate(corpus []*corpusEntry, thorough bool, yield func(m mutant)) {
 		for l := 0; l < n; l++ {
 			yield(mutant{Corpus: ci, Kind: "trunc", Off: l})
 		}
+		// length-field edits: at EVERY offset, overwrite with (a) hostile varints of several widths and
+		// (b) the varint of every block position of this table, of 0 and of the file size - so every
+		// position field gets pointed at every block, including the one it lives in
+		var pats [][]byte
+		for _, hv := range []uint64{^uint64(0), 1 << 63, 1<<63 - 1, 1 << 62, 1 << 32, 1<<31 - 1, 1 << 24, 1 << 16, 300} {
+			pats = append(pats, putVarint(hv))
+		}
+		pats = append(pats, []byte{0xff, 0xff, 0xff, 0xff, 0xff, 0xff, 0xff, 0xff, 0xff, 0xff, 0x7f}) // 11 bytes: overflows 64 bits
+		seenV := map[uint64]bool{}
+		posVals := []uint64{0, uint64(n), uint64(n - fs)}
+		for _, b := range e.Dec.Blocks {
+			posVals = append(posVals, b.Off, b.Off+uint64(b.Len))
+		}
+		for _, v := range posVals {
+			if !seenV[v] {
+				seenV[v] = true
+				pats = append(pats, putVarint(v))
+			}
+		}
+		for o := hs; o < n-4; o++ {
+			for _, pb := range pats {
+				if o+len(pb) > n-4 {
+					continue
+				}
+				if bytes.Equal(e.Data[o:o+len(pb)], pb) {
+					continue
+				}
+				yield(mutant{Corpus: ci, Kind: "ovw", Off: o, Bytes: pb, Repair: o+len(pb) > n-fs})
+			}
+		}
 		if e.LogEnd {
 			b := e.Dec.Blocks[len(e.Dec.Blocks)-1]
 			plen := int(b.Len) - 4
@@ -366,10 +436,11 @@ func enumerate(corpus []*corpusEntry, thorough bool, yield func(m mutant)) {
 
 // budgetSource wraps the library's own ByteBlockSource with a deterministic read budget.
 type budgetSource struct {
-	inner *reftable.ByteBlockSource
-	calls int
-	bytes int
-	limit int
+	inner     *reftable.ByteBlockSource
+	calls     int
+	bytes     int
+	limit     int // ReadBlock calls allowed per API call
+	exhausted bool
 }
 
 var errBudget = fmt.Errorf("verif: read budget exhausted")
@@ -378,12 +449,21 @@ func (s *budgetSource) Size() uint64 { return s.inner.Size() }
 func (s *budgetSource) Close() error { return nil }
 func (s *budgetSource) ReadBlock(off uint64, sz int) ([]byte, error) {
 	s.calls++
-	b, err := s.inner.ReadBlock(off, sz)
-	s.bytes += len(b)
-	if s.bytes > s.limit || s.calls > s.limit {
+	if s.calls > s.limit {
+		// a single API call cannot legitimately need this many block reads: the code is looping
+		s.exhausted = true
 		return nil, errBudget
 	}
+	b, err := s.inner.ReadBlock(off, sz)
+	s.bytes += len(b)
 	return b, err
+}
+
+// next starts the budget of the next API call; it reports whether the previous one ran out.
+func (s *budgetSource) next() bool {
+	ex := s.exhausted
+	s.calls, s.exhausted = 0, false
+	return ex
 }
 
 type outcome struct {
@@ -416,7 +496,7 @@ func allocated() uint64 {
 
 // drive runs every read path over one byte string.
 func drive(data []byte, e *corpusEntry) (out *outcome) {
-	src := &budgetSource{inner: &reftable.ByteBlockSource{Source: data}, limit: 64*len(data) + 4096}
+	src := &budgetSource{inner: &reftable.ByteBlockSource{Source: data}, limit: 2*len(data) + 64}
 	maxSteps := 16*len(data) + 256
 	a0 := allocated()
 	call := "NewReader"
@@ -464,17 +544,30 @@ func drive(data []byte, e *corpusEntry) (out *outcome) {
 			}
 		}
 	}
+	hung := func() *outcome {
+		if src.next() {
+			return &outcome{Sig: "hang:read-budget-exceeded@" + strings.SplitN(call, "(", 2)[0], Msg: fmt.Sprintf("%s needed more than %d block reads on a %d-byte input: the reader is looping", call, src.limit, len(data))}
+		}
+		return nil
+	}
+	src.next()
 	call = "SeekRef(\"\")+scan"
 	if it, err := rd.SeekRef(""); err == nil {
 		if o := iterRefs(it, 0); o != nil {
 			return o
 		}
 	}
+	if o := hung(); o != nil {
+		return o
+	}
 	call = "SeekLog(\"\",max)+scan"
 	if it, err := rd.SeekLog("", math.MaxUint64); err == nil {
 		if o := iterLogs(it, 0); o != nil {
 			return o
 		}
+	}
+	if o := hung(); o != nil {
+		return o
 	}
 	keys := append([]string{"\xff\xff", "a"}, e.Names...)
 	for _, k := range keys {
@@ -484,11 +577,17 @@ func drive(data []byte, e *corpusEntry) (out *outcome) {
 				return o
 			}
 		}
+		if o := hung(); o != nil {
+			return o
+		}
 		call = "SeekLog(key)"
 		if it, err := rd.SeekLog(k, 5); err == nil {
 			if o := iterLogs(it, 3); o != nil {
 				return o
 			}
+		}
+		if o := hung(); o != nil {
+			return o
 		}
 	}
 	oids := [][]byte{e.Oid, bytes.Repeat([]byte{0xff}, 32), make([]byte, 32)}
@@ -501,6 +600,9 @@ func drive(data []byte, e *corpusEntry) (out *outcome) {
 			if o := iterRefs(it, 0); o != nil {
 				return o
 			}
+		}
+		if o := hung(); o != nil {
+			return o
 		}
 	}
 	return nil
@@ -537,8 +639,8 @@ func main() {
 		maxSize = 1200
 	}
 	corpus := buildCorpus(maxSize)
-	if len(corpus) > 44 {
-		corpus = corpus[:44]
+	if len(corpus) > 48 {
+		corpus = corpus[:48]
 	}
 
 	if *replay != "" {
@@ -744,7 +846,7 @@ func main() {
 	cov["corpus_layouts"] = layouts
 	cov["samples"] = samples
 	cov["exhaustive"] = true
-	cov["rule"] = "corpus = one valid table per distinct layout (versions, padded/unaligned, refs/logs/both, index depths, object index) produced by the real writer; mutants = every offset x value alphabet (all 256 values in the thorough tier) substitution, every truncation, every one-byte insertion/deletion, substitutions inside the inflated payload of a final log block (re-deflated), and all pairs of substitutions over structural bytes; CRC repaired and header mirrored when the edit touches header/footer (both variants). Every mutant distinct by construction; non-trivial = all but the unmodified tables"
+	cov["rule"] = "corpus = one valid table per distinct layout (versions, padded/unaligned, refs/logs/both, index depths, object index) produced by the real writer; mutants = every offset x value alphabet (all 256 values in the thorough tier) substitution, every truncation, every one-byte insertion/deletion, substitutions inside the inflated payload of a final log block (re-deflated), length-field edits (at every offset: hostile varints of 2-10 bytes and the varint of every block position, of 0 and of the file size), and all pairs of substitutions over structural bytes; CRC repaired and header mirrored when the edit touches header/footer (both variants). Every mutant distinct by construction; non-trivial = all but the unmodified tables"
 	if *bindRep != "" {
 		if b, err := os.ReadFile(*bindRep); err == nil {
 			var br interface{}
@@ -754,7 +856,7 @@ func main() {
 	}
 	run.Assumptions = []string{
 		"'for all byte strings' is decided for all strings within one edit (two structural edits) of the corpus; coverage-guided fuzzing (sampling) is not used",
-		"hang = a deterministic read/step budget (64x file size bytes, 16x file size records) exceeded, or no progress of the worker for 90 s; unbounded allocation = more than 256x input size + 8 MiB allocated for one input, or a fatal out-of-memory under a 3 GiB address-space limit",
+		"hang = a deterministic budget exceeded (more than 2x file size + 64 block reads in ONE API call, or more than 16x file size records from one iteration), or no progress of the worker for 90 s; unbounded allocation = more than 256x input size + 8 MiB allocated for one input, or a fatal out-of-memory under a 3 GiB address-space limit",
 		"inputs are read through the library's own ByteBlockSource under a read budget",
 	}
 	_ = refdb.New
